@@ -18,17 +18,17 @@ theorem pyInt_neg_natStr (e : Env) (n : Nat) :
   rw [natStr_eq]
   have hd := nstr_AllD n
   have hne := nstr_ne_nil n
-  have hstrip : e.strip ('-' :: nstr n) = '-' :: nstr n := by
-    apply strip_eq
+  have hstrip : e.intStrip ('-' :: nstr n) = '-' :: nstr n := by
+    apply intStrip_eq
     · intro c hc
       simp at hc; subst hc
-      simp [Env.isSpace, isAscii, isAsciiSpace]
+      simp [Env.isIntSpace, isAscii]
     · intro c hc
       have : (nstr n).getLast? = some c := by
         cases hs : nstr n with
         | nil => exact absurd hs hne
         | cons a t => rw [hs] at hc; simpa [List.getLast?_cons_cons] using hc
-      exact not_space_of_digit e (hd c (List.mem_of_mem_getLast? this))
+      exact not_intSpace_of_digit e (hd c (List.mem_of_mem_getLast? this))
   unfold Env.pyInt
   rw [hstrip]
   cases hs : nstr n with
